@@ -16,6 +16,7 @@ from .c01 import reduce_ballots, straddle
 
 ID = "C13"
 BUDGET = {"quick": 12000, "thorough": 150000}
+FUZZ = {"thorough": 4000}  # coverage-guided stage: libFuzzer runs per worker (x16), see vk/fuzz.py
 RULE = (
     "Hypothesis: profile of 1-8 untied ballots over 1-6 declared candidates (partial, rational "
     "weights, zero-vote candidates, tie-rich variants) x composite in {IRV, SNTV, SequentialRCV, "
